@@ -98,7 +98,7 @@ Theorem C06_displaced_gone_when_heartbeat_returns_sequential_partial : forall wb
   load_region (h_store (fst (heartbeat (seq_ops wb ops) r))) (r_id x) = None /\ ~ held (h_store (fst (heartbeat (seq_ops wb ops) r))) (r_id x).
 Proof. exact c_displaced_storage. Qed.
 
-(* the statement that was refuted before /repo commit e76651c (DeleteRegion left the pending entry in the batch of
+(* the statement that was refuted before /repo commit 8a5de01 (DeleteRegion left the pending entry in the batch of
    the region storage, the next flush wrote the displaced region back): now a theorem, for both backends *)
 Definition C06_displaced_gone_from_storage_full : Prop := storage_subset_full.
 Theorem C06_displaced_gone_from_storage_after_flush : C06_displaced_gone_from_storage_full.
